@@ -1,8 +1,9 @@
 SPECIFICATION Spec
 CONSTANTS
   Threads = {1, 2}
-  MaxEvents = 4
+  MaxEvents = 3
   MaxDepth = 2
   Ordered = FALSE
-INVARIANTS TypeOK RecNested Bounded SaveExpAgrees AcceptLaw RejectLaw NestLaw EquivLaw EmptyLaw
+  Exits = TRUE
+INVARIANTS TypeOK RecNested Bounded PrecOK SaveExpAgrees AcceptLaw RejectLaw NestLaw EquivLaw AltLaw EmptyLaw
 CHECK_DEADLOCK FALSE
